@@ -9,3 +9,5 @@ import Dnp3.Driver.Convert
 import Dnp3.Driver.Parse
 import Dnp3.Driver.Ffi
 import Dnp3.Driver.Db
+import Dnp3.Driver.Master
+import Dnp3.Model.MasterTrace
